@@ -109,6 +109,7 @@ inductive Slot where
   | callee               -- the callee of a call: a local `%x` or a global `@f` (argument: `.val`); followed by the argument list only
   | cargs                -- `(T V, T V, …)` (the arguments of a call; argument: `.tyvals`); only as the last slot of a row
   | flags (ks : List Bytes)  -- any sequence of the keywords `ks`, each followed by a space (`nuw nsw `, `exact `, fast-math flags, `volatile `); in front of a `tyval` slot or of a `ty` slot followed by `, `
+  deriving DecidableEq
 
 inductive Arg where
   | ty (t : Ty)
@@ -229,7 +230,14 @@ def rows : List Row := [
   ⟨true, [103, 101, 116, 101, 108, 101, 109, 101, 110, 116, 112, 116, 114, 32], .void, [.flags kInbounds, .ty, .lit sComma, .tyval, .tyvals], .gep, false⟩,
   -- 74: call void (no result); 75: call T (a value; `T` is the return type written in the instruction and is not `void`)
   ⟨false, [99, 97, 108, 108, 32, 118, 111, 105, 100, 32], .void, [.callee, .cargs], .none, false⟩,
-  ⟨true, [99, 97, 108, 108, 32], .void, [.ty, .lit [32], .callee, .cargs], .loadTy, false⟩
+  ⟨true, [99, 97, 108, 108, 32], .void, [.ty, .lit [32], .callee, .cargs], .loadTy, false⟩,
+  -- 76–81: the same with a tail-call marker in front: `tail call`, `musttail call`, `notail call` (void, value)
+  ⟨false, [116, 97, 105, 108, 32, 99, 97, 108, 108, 32, 118, 111, 105, 100, 32], .void, [.callee, .cargs], .none, false⟩,
+  ⟨true, [116, 97, 105, 108, 32, 99, 97, 108, 108, 32], .void, [.ty, .lit [32], .callee, .cargs], .loadTy, false⟩,
+  ⟨false, [109, 117, 115, 116, 116, 97, 105, 108, 32, 99, 97, 108, 108, 32, 118, 111, 105, 100, 32], .void, [.callee, .cargs], .none, false⟩,
+  ⟨true, [109, 117, 115, 116, 116, 97, 105, 108, 32, 99, 97, 108, 108, 32], .void, [.ty, .lit [32], .callee, .cargs], .loadTy, false⟩,
+  ⟨false, [110, 111, 116, 97, 105, 108, 32, 99, 97, 108, 108, 32, 118, 111, 105, 100, 32], .void, [.callee, .cargs], .none, false⟩,
+  ⟨true, [110, 111, 116, 97, 105, 108, 32, 99, 97, 108, 108, 32], .void, [.ty, .lit [32], .callee, .cargs], .loadTy, false⟩
 ]
 
 def phisString (useHex : Int → Bool) (cur : Ty) : List (Operand × Ident) → Bytes
@@ -881,8 +889,11 @@ def typed (f : Func) : Bool :=
      | none => true) &&
     (!boolFlagRows.contains i.row || (flagsOf i).length ≤ 1)
 
-/-- the parser on a function definition (asm/local.go): scaffold and AssignIDs (nameless values are numbered, written IDs validated), duplicate
-    definitions, undefined uses, label operands that are not blocks (asm/helper.go irBlock); then the operand types -/
+/-- the call rows: `call void` / `call T`, plain and with a tail-call marker -/
+def callRows : List Nat := [74, 75, 76, 77, 78, 79, 80, 81]
+/-- those that yield a value (their keyword is extended by `void ` in the row before) -/
+def valueCallRows : List Nat := [75, 77, 79, 81]
+
 def calleeOf (i : Inst) : Option Operand :=
   i.args.findSome? fun a => match a with | .val o => some o | _ => none
 
@@ -895,13 +906,15 @@ def isFuncPtr : Ty → Bool
 def callsOK (ge : GEnv) (f : Func) : Bool :=
   let e := env f
   f.blocks.all fun b => (instsOf b).all fun i =>
-    if i.row == 74 || i.row == 75 then
+    if callRows.contains i.row then
       match calleeOf i with
       | some (.loc x) => (match lookup e x with | some t => isFuncPtr t | none => true)
       | some (.glob n) => (match lookupG ge n with | some t => isFuncPtr t | none => true)
       | _ => true
     else true
 
+/-- the parser on a function definition (asm/local.go): scaffold and AssignIDs (nameless values are numbered, written IDs validated), duplicate
+    definitions, undefined uses, label operands that are not blocks (asm/helper.go irBlock); then the operand types -/
 def translateIn (ge : GEnv) (f : Func) : Option Func :=
   match Numbering.parseAssign (slotsOf f) with
   | .error => none
@@ -981,7 +994,7 @@ def startsVoid (s : Bytes) : Bool := (TyParse.stripPrefix sVoidSp s).isSome
 
 /-- the return type written in a value call does not start with `void ` (`call void …` is row 74; a type such as `void ()*` would be read as that row) -/
 def callTyOK (i : Inst) : Bool :=
-  i.row != 75 || (match i.args with | .ty t :: _ => !startsVoid (tyString t ++ [32]) | _ => false)
+  !valueCallRows.contains i.row || (match i.args with | .ty t :: _ => !startsVoid (tyString t ++ [32]) | _ => false)
 
 def instOKB (i : Inst) : Bool :=
   match rows[i.row]? with
